@@ -7,15 +7,17 @@ CONSTANTS
   RecheckAtApply = TRUE
   KeepTimers = FALSE
   CountAllWit = FALSE
+  RetryBlind = FALSE
   MaxOps = 9
   MaxPend = 2
   MaxWaits = 2
+  MaxParks = 2
   EpochSels = {"cur"}
   PairSels = {"cur", "old"}
   WaitModes = {"none", "good"}
   ReqServers = {"a"}
   EffectiveOnly = FALSE
-INVARIANTS TypeOK X01_TimersOnlyAtCoordinator TimersComplete StatusLive WitnessesAreGood
+INVARIANTS TypeOK X01_TimersOnlyAtCoordinator X01_NoCrash TimersComplete StatusLive WitnessesAreGood
 PROPERTIES StepsOK
 VIEW MCView
 CHECK_DEADLOCK FALSE
